@@ -455,6 +455,7 @@ func c17(r *ev.Run) {
 	runAPIPart(r, "frames", false, nil, 10*time.Minute)
 	runAPIPart(r, "sequence", false, nil, 15*time.Minute)
 	c17Smoke(r)
+	c17RealOldProcess(r)
 	r.Require("sequences", 500)
 	r.Require("smoke_listeners_handed_over", 1)
 }
